@@ -173,7 +173,8 @@ def sort_of(ty: Ty):
             ],
         )
     elif isinstance(ty, TSet):
-        s = z3.ArraySort(sort_of(ty.k), z3.BoolSort())
+        # set[bytes]: keyed by bkey(b), an integer id of the byte STRING (not of the z3 term), see bkey() below
+        s = z3.ArraySort(z3.IntSort() if ty.k == TBytes else sort_of(ty.k), z3.BoolSort())
     elif isinstance(ty, TArr):
         s = z3.ArraySort(sort_of(ty.k), sort_of(ty.v))
     elif isinstance(ty, TTuple):
@@ -256,11 +257,49 @@ def bytes_data(v: V):
     return sort_of(TBytes).accessor(0, 1)(v.t)
 
 
+_bytes_literals: dict[int, tuple] = {}  # z3 ast id -> (term kept alive, python value)
+
+
 def bytes_const(b: bytes):
     arr = z3.K(z3.IntSort(), z3.IntVal(0))
     for i, x in enumerate(b):
         arr = z3.Store(arr, i, x)
-    return bytes_mk(z3.IntVal(len(b)), arr)
+    v = bytes_mk(z3.IntVal(len(b)), arr)
+    _bytes_literals[v.t.get_id()] = (v.t, bytes(b))
+    return v
+
+
+def bytes_literal(v):
+    """python value of a term built by bytes_const (None for any other term)"""
+    hit = _bytes_literals.get(v.t.get_id())
+    if hit is not None and hit[0].eq(v.t):
+        return hit[1]
+    return None
+
+
+def bkey(t):
+    """Integer id of a byte string used as a set element.  Python compares set elements by VALUE, so the id must depend
+    on (length, bytes[0:length]) only, not on the z3 term (two terms may differ outside [0, len)).  bkey is
+    uninterpreted; bkey_axiom() states exactly that: bkey(a) == bkey(b) <=> a and b are equal byte strings.  (A model
+    exists: any injective numbering of finite byte strings.)"""
+    f = z3.Function("bkey", sort_of(TBytes), z3.IntSort())
+    return f(t)
+
+
+def unkey(c):
+    """some byte string whose id is c (meaningful for ids of set members only, see wf)"""
+    f = z3.Function("unkey", z3.IntSort(), sort_of(TBytes))
+    return f(c)
+
+
+def bkey_axiom():
+    bs = sort_of(TBytes)
+    a, b = z3.Const("bk_a", bs), z3.Const("bk_b", bs)
+    return z3.ForAll([a, b], (bkey(a) == bkey(b)) == bytes_eq(V(TBytes, a), V(TBytes, b)), patterns=[z3.MultiPattern(bkey(a), bkey(b))])
+
+
+def set_empty(ty):
+    return V(ty, z3.K(z3.IntSort() if ty.k == TBytes else sort_of(ty.k), z3.BoolVal(False)))
 
 
 # range
@@ -354,6 +393,10 @@ def wf(v: V, depth=0):
         out.append(bytes_len(v) >= 0)
     elif isinstance(ty, TList):
         out.append(list_len(v) >= 0)
+    elif isinstance(ty, TSet) and ty.k == TBytes and depth == 0:
+        # every member of a set[bytes] IS a byte string: its id is the id of some byte string
+        c = z3.FreshConst(z3.IntSort(), "c")
+        out.append(z3.ForAll([c], z3.Implies(z3.Select(v.t, c), bkey(unkey(c)) == c), patterns=[z3.Select(v.t, c)]))
     elif isinstance(ty, TOpt):
         inner = wf(opt_val(v), depth + 1)
         if inner:
@@ -436,6 +479,10 @@ def truthy(v: V):
         return bytes_len(v) > 0
     if isinstance(ty, TList):
         return list_len(v) > 0
+    if isinstance(ty, TSet):
+        # non-empty: some element is a member
+        e = z3.FreshConst(v.t.sort().domain(), "e")
+        return z3.Exists([e], z3.Select(v.t, e))
     if ty == TStr:
         return str_len(v.t) > 0
     if isinstance(ty, TOpt):
@@ -449,6 +496,11 @@ def truthy(v: V):
 
 def bytes_eq(a: V, b: V):
     """Extensional equality of two byte strings."""
+    for x, y in ((a, b), (b, a)):
+        lit = bytes_literal(y)
+        if lit is not None and len(lit) <= 64:
+            # same formula with the bounded quantifier over [0, len(lit)) expanded
+            return z3.And(bytes_len(x) == len(lit), *[z3.Select(bytes_data(x), i) == c for i, c in enumerate(lit)])
     k = z3.FreshConst(z3.IntSort(), "k")
     la, lb = bytes_len(a), bytes_len(b)
     return z3.And(
